@@ -41,6 +41,8 @@ structure Rec where
   expire : Int
   /-- `treasure.expirationTimeChanged` -/
   expFlag : Bool
+  /-- `treasure.contentChanged` -/
+  contFlag : Bool := true
   deriving DecidableEq, Repr, Inhabited
 
 /-- An index: what the client asks for (`IndexType`), and also the name of a beacon pair. -/
@@ -129,6 +131,8 @@ inductive Resort where
   | int64
   /-- no sort at all -/
   | none
+  /-- no `Add` either: both beacons of the pair are `Reset()`, the next read rebuilds them -/
+  | invalidate
   deriving DecidableEq, Repr
 
 structure Cfg where
@@ -170,6 +174,8 @@ structure Cfg where
   valueShared : Bool
   /-- the treasure's `…Changed` flags are never cleared after a save -/
   flagsSticky : Bool
+  /-- `SetContentVoid` replaces typed content by void (false: it left typed content alone) -/
+  setVoidClearsTyped : Bool
   deriving DecidableEq, Repr
 
 def test (c : Cmp) (x bound : Int) : Bool :=
@@ -311,12 +317,22 @@ def incrSort (cfg : Cfg) (ps : Slot) : Option Slot :=
     | .own => some ps
     | .int64 => some (.value .i64)
     | .none => none
+    | .invalidate => none
   match ps with
   | .key => pick cfg.resortKey
   | .created => pick cfg.resortCreated
   | .updated => pick cfg.resortUpdated
   | .expire => pick cfg.resortExpire
   | .value _ => pick cfg.resortValue
+
+/-- does an incremental add drop the pair instead of extending it? -/
+def invalidates (cfg : Cfg) (ps : Slot) : Bool :=
+  match ps with
+  | .key => cfg.resortKey == .invalidate
+  | .created => cfg.resortCreated == .invalidate
+  | .updated => cfg.resortUpdated == .invalidate
+  | .expire => cfg.resortExpire == .invalidate
+  | .value _ => cfg.resortValue == .invalidate
 
 /-- is comparator `s` a strict weak order on `l`?  (typed value comparators are not as soon as a
     record of another type is present together with at least one more record) -/
@@ -338,6 +354,7 @@ def sameAttr (ps : Slot) (a b : Rec) : Bool :=
 def Pair.insert (cfg : Cfg) (ps : Slot) (r : Rec) (p : Pair) : Pair :=
   if !p.init then p else
   if !addGuard cfg ps r then p else
+  if invalidates cfg ps then {} else
   let a := addTo p.asc r
   let d := addTo p.desc r
   match incrSort cfg ps with
@@ -363,7 +380,7 @@ def refreshes (cfg : Cfg) (ps : Slot) (new : Rec) : Bool :=
   | .created => cfg.updRefreshCreated
   | .updated => cfg.updRefreshUpdated
   | .expire => cfg.updRefreshExpireOnFlag && new.expFlag
-  | .value _ => cfg.updRefreshValue
+  | .value _ => cfg.updRefreshValue && new.contFlag
 
 /-- `SaveFunction` for an existing key (`old` → `new`, same treasure object) as seen by pair `ps` -/
 def Pair.update (cfg : Cfg) (ps : Slot) (old new : Rec) (p : Pair) : Pair :=
@@ -420,17 +437,21 @@ def mergeRec (cfg : Cfg) (old : Option Rec) (rq : SetReq) : Rec :=
   match old with
   | none =>
     { key := rq.key, ct := rq.ct, val := (if rq.ct == .void then 0 else rq.val),
-      created := rq.created, updated := rq.updated, expire := rq.expire, expFlag := rq.expire != 0 }
+      created := rq.created, updated := rq.updated, expire := rq.expire, expFlag := rq.expire != 0, contFlag := true }
   | some o =>
-    -- `SetContentVoid` on an object that already has non-void content leaves the content alone
-    let keep := rq.ct == .void
+    -- `SetContentVoid` on an object that already has non-void content: replaces it, or (older code)
+    -- leaves the content alone
+    let keep := rq.ct == .void && !cfg.setVoidClearsTyped
     { key := o.key,
       ct := if keep then o.ct else rq.ct,
-      val := if keep then o.val else rq.val,
+      val := if keep then o.val else (if rq.ct == .void then 0 else rq.val),
       created := if rq.created != 0 then rq.created else o.created,
       updated := if rq.updated != 0 then rq.updated else o.updated,
       expire := if rq.expire != 0 then rq.expire else o.expire,
-      expFlag := (cfg.flagsSticky && o.expFlag) || rq.expire != 0 }
+      expFlag := (cfg.flagsSticky && o.expFlag) || rq.expire != 0,
+      -- the setters raise `contentChanged` only when the value really differs
+      contFlag := (cfg.flagsSticky && o.contFlag) ||
+        (!keep && (rq.ct != o.ct || (if rq.ct == .void then 0 else rq.val) != o.val)) }
 
 structure Query where
   slot : Slot
@@ -445,6 +466,13 @@ inductive Op where
   | set (rq : SetReq)
   | del (k : String)
   | read (q : Query)
+  /-- `IncrementInt64(key, delta)` with `ExpiredAt = expire` in both metadata requests (0: none) -/
+  | inc (k : String) (delta : Int) (expire : Int)
+  /-- the swamp is closed and summoned again from disk -/
+  | reload
+  /-- `ShiftExpiredTreasures` with no bound: every record of the expiration index (all timestamps
+      of the runs lie in the past) is returned in index order and deleted -/
+  | shiftExpired
   deriving Repr
 
 def setPair (p : Slot → Pair) (s : Slot) (v : Pair) : Slot → Pair :=
@@ -470,6 +498,25 @@ def stepDel (st : St) (k : String) : St :=
     if store'.isEmpty then St.init
     else { store := store', pairs := fun ps => (st.pairs ps).erase k }
 
+/-- `IncrementInt64` (non-zero increment): a missing key (or void content) starts from 0; int64 content is incremented in
+    place and saved; any other content type is an error and nothing changes -/
+def stepInc (cfg : Cfg) (st : St) (k : String) (delta expire : Int) : St :=
+  -- the gateway refuses `IncrementBy == 0`
+  if delta == 0 then st else
+  match findKey k st.store with
+  | none => stepSet cfg st { key := k, ct := .i64, val := delta, created := 0, updated := 0, expire := expire }
+  | some o =>
+    if o.ct == .i64 then
+      stepSet cfg st { key := k, ct := .i64, val := o.val + delta, created := 0, updated := 0, expire := expire }
+    else if o.ct == .void then
+      stepSet cfg st { key := k, ct := .i64, val := delta, created := 0, updated := 0, expire := expire }
+    else st
+
+/-- close + summon: every beacon is gone (they live in memory only) and the treasures are fresh
+    objects, so their `…Changed` flags are clear -/
+def stepReload (st : St) : St :=
+  { store := st.store.map (fun r => { r with expFlag := false, contFlag := false }), pairs := fun _ => {} }
+
 /-- the build step of a read -/
 def stepBuild (cfg : Cfg) (st : St) (q : Query) : St :=
   if st.store.isEmpty then st else
@@ -490,10 +537,22 @@ def answer (cfg : Cfg) (st : St) (q : Query) : Option (List Rec) :=
     -- findInKeyBeacon / findInValueBeacon do not pass the time window on
     some (getMany cfg l (ts q.slot) q.asc q.from_ lim none none)
 
+def expireAll : Query := { slot := .expire, asc := true, from_ := 0, limit := 0, fromT := none, toT := none }
+
+/-- what `CloneAndDeleteExpiredTreasures` walks: the ascending expiration beacon after `buildBeacon` -/
+def shiftList (cfg : Cfg) (st : St) : List Rec :=
+  ((stepBuild cfg st expireAll).pairs (phys cfg .expire)).asc.filter (fun r => r.expire != 0)
+
+def stepShiftExpired (cfg : Cfg) (st : St) : St :=
+  ((shiftList cfg st).map (·.key)).foldl stepDel (stepBuild cfg st expireAll)
+
 def step (cfg : Cfg) (st : St) : Op → St
   | .set rq => stepSet cfg st rq
   | .del k => stepDel st k
   | .read q => stepBuild cfg st q
+  | .inc k d e => stepInc cfg st k d e
+  | .reload => stepReload st
+  | .shiftExpired => stepShiftExpired cfg st
 
 def run (cfg : Cfg) (h : List Op) : St := h.foldl (step cfg) St.init
 
